@@ -115,7 +115,10 @@ def gen_case(seed, tier):
         else:
             op = {'op': rng.choice(('reopen', 'pickle', 'restart'))}
         prog.append(op)
-    cfg = {'kind': 'seq', 'mfs': mfs, 'origin': rng.choice(('direct', 'direct', 'fanout', 'django'))}
+    cfg = {'kind': 'seq', 'mfs': mfs, 'origin': rng.choice(('direct', 'direct', 'fanout', 'django')),
+           # the parent an Index is obtained from may have been built with its own eviction settings: an Index never evicts
+           'parent_opts': rng.choice(({}, {}, {'eviction_policy': 'least-recently-used', 'size_limit': 2 ** 16, 'cull_limit': 10},
+                                      {'eviction_policy': 'least-frequently-used', 'cull_limit': 2, 'statistics': 1, 'tag_index': 1}))}
     return {'seed': seed, 'cfg': cfg, 'prog': prog}
 
 
@@ -237,13 +240,13 @@ def run_seq(case):
         dc = world.dc
         parent = None
         if cfg['origin'] == 'fanout':
-            parent = dc.FanoutCache(world.path('f'), shards=2)
+            parent = dc.FanoutCache(world.path('f'), shards=2, **cfg.get('parent_opts', {}))
             ix = parent.index('ix')
             probes['from_fanout'] = 1
         elif cfg['origin'] == 'django':
             from .. import seams
             mod = seams.install_django()
-            parent = mod.DjangoCache(world.path('dj'), {'SHARDS': 2})
+            parent = mod.DjangoCache(world.path('dj'), {'SHARDS': 2, 'OPTIONS': dict(cfg.get('parent_opts', {}))})
             ix = parent.index('ix')
             probes['from_django'] = 1
         else:
